@@ -182,13 +182,15 @@ func runC17(r *mon.Run) {
 				// is charged to whichever secret is being traced at that moment.  A dependence on the secret
 				// is reproducible; that is not.  So: let every pending finalizer run, switch the collector
 				// off, trace the two secrets again, and judge that pair.
-				f0 := c.op.prep(secrets[b.first], c.variant)
+				// (the collector is off from the first quiesce on: what prep leaves behind - a pooled
+				// object, garbage with finalizers - stays exactly as it is until the traced call)
 				c17Quiesce()
+				f0 := c.op.prep(secrets[b.first], c.variant)
 				secp256k1.VerifInstrReset()
 				f0()
 				base2 := c17Take()
-				f1 := c.op.prep(s, c.variant)
 				c17Quiesce()
+				f1 := c.op.prep(s, c.variant)
 				secp256k1.VerifInstrReset()
 				f1()
 				d = c17Diff(base2)
